@@ -1,6 +1,6 @@
 (* C13 line protocol.
-   run <fx:0|1> [[k a b] ...]   -> per event: [[outs] [tables]]   (model of DetachedServer, current / fixed)
-   spec [[k a b] ...]           -> [wf [[answers] ...]]            (five-state specification)
+   run <v:0|1|2> [[k a b] ...]  -> per event: [[outs] [tables]]   (model of DetachedServer: current / fixed / fixed-drop)
+   spec <dc:0|1> [[k a b] ...]  -> [wf [[answers] ...]]            (five-state specification; dc: cancelled = forgotten)
    events: 0 connect c | 1 disconnect c | 2 submit c t | 3 request c t | 4 status c t | 5 cancel c t
            | 6 result mb v | 7 error mb m | 8 log mb l *)
 open Common
@@ -34,16 +34,17 @@ let vtables s =
            (srt (List.map (fun (mb, (r, w)) -> (i mb, ((match r with None -> -1 | Some v -> i v), (if w then 1 else 0)))) s.boxes)));
       I (i s.counter); vints (srt (List.map i s.closed)); I (if s.up then 1 else 0) ]
 let handle line = match parse line with
-  | [A "run"; I fx; es] ->
-      let fx = fx <> 0 in
+  | [A "run"; I v; es] ->
+      let fx = (match v with 0 -> Cur | 1 -> Fix false | _ -> Fix true) in
       let rec go s = function
         | [] -> []
         | e :: r -> let (s', o) = step fx s e in L [L (List.map vout o); vtables s'] :: go s' r in
       L (go init (List.map ev (list_of es)))
-  | [A "spec"; es] ->
+  | [A "spec"; I dc; es] ->
+      let dc = dc <> 0 in
       let es = List.map ev (list_of es) in
-      let (_, os) = srun spec0 es in
-      L [I (if wf_run spec0 es then 1 else 0); L (List.map (fun o -> L (List.map vout o)) os)]
+      let (_, os) = srun dc spec0 es in
+      L [I (if wf_run dc spec0 es then 1 else 0); L (List.map (fun o -> L (List.map vout o)) os)]
   | _ -> A "BADCMD"
 let () =
   try while true do
